@@ -16,6 +16,11 @@ R-C12.3  occurs check: `?A ~ (?A,)`-style pairs fail (and terminate);
 R-C12.4  constructor exhaustiveness: every member of the Type and Const unions occurs in an arm.
 R-C12.5  solutions are threaded through multi-part checks (see c12_threading.py): the expected
          type of call argument / tuple element i+1 is taken under the solutions of parts <= i.
+R-C12.7  every call site gets its own inference variables: `FunctionType.unquantified` interpreted twice on one function type
+         (`cached_property` modelled as compute-once) -- one variable per parameter, in order, and no variable shared between the
+         two calls (c12_fresh.py).
+R-C12.8  `check_call` (branch that uses the expected type) interpreted on the triangular solution ?T := ?A, ?B := int, ?A := bool:
+         accepted, instantiation and returned solution fully resolved (c12_fresh.run_closed).
 Not decided: most-generality beyond this universe, unbounded nesting depth.
 """
 
@@ -302,3 +307,8 @@ def run(ctx: Ctx) -> None:
     # ------------------------------------------------------------ R-C12.5 solutions threaded through multi-part checks
     from . import c12_threading
     c12_threading.run(ctx)
+
+    # ------------------------------------------------------------ R-C12.7 fresh inference variables per call site
+    from . import c12_fresh
+    c12_fresh.run(ctx)
+    c12_fresh.run_closed(ctx)  # R-C12.8
